@@ -33,7 +33,7 @@ for pid in sorted(PLANS):
 
 manifest = {
     "version": 1,
-    "setup_cmd": "./check --build rel dbg asan rel+rayon dbg+rayon miri",
+    "setup_cmd": "./check --build rel dbg asan rel+rayon dbg+rayon miri miri+rayon",
     "hooks": {
         "guard": "cfg(fir_verif)",
         "enable": "RUSTFLAGS=\"--cfg fir_verif\" (set by ./check for every flavour; the harness depends on /repo by path, so every build compiles /repo's current working tree)",
